@@ -155,12 +155,6 @@ theorem allOk_eq {f : Nat → Except Code Bool} {g : Nat → Bool} {l : List Nat
 
 theorem tyEq_refl (t : OType) : tyEq t t = true := by simp [tyEq]
 
-/-- the positions `Equals` compares -/
-def eqPositions (t : OType) : List Nat :=
-  match (attrInfo t).eqIdx with
-  | some l => l
-  | none => List.range (posAttrs t).length
-
 theorem eqPositions_lt {t : OType} {i : Nat} (h : i ∈ eqPositions t) : i < (posAttrs t).length := by
   unfold eqPositions attrInfo at h
   by_cases hd : equalityDeclared t = true
@@ -169,6 +163,8 @@ theorem eqPositions_lt {t : OType} {i : Nat} (h : i ∈ eqPositions t) : i < (po
     exact nameToPos_lt hn
   · simp [hd] at h
     exact h
+
+theorem cmpValues_ok (v v' : Val) : cmpValues (.ok v) (.ok v') = .ok (v == v') := rfl
 
 theorem equals_den {t : OType} {vs vs' : List Val} {k : Nat} (ht : TailOpt (posAttrs t) k)
     (hk : k ≤ vs.length) (hk' : k ≤ vs'.length) :
@@ -181,8 +177,51 @@ theorem equals_den {t : OType} {vs vs' : List Val} {k : Nat} (ht : TailOpt (posA
   have hlt := eqPositions_lt hi
   obtain ⟨v, hv, hd⟩ := valueAt_den (vs := vs) ht hk hlt
   obtain ⟨v', hv', hd'⟩ := valueAt_den (vs := vs') ht hk' hlt
-  simp only [attrInfo_attrs, hv, hv', hd, hd']
+  simp only [hv, hv', hd, hd', cmpValues_ok]
   simp
+
+/-- what `Equals` computes for one compared position of the receiver when the types differ -/
+def crossStep (t t' : OType) (vs vs' : List Val) (i : Nat) : Bool :=
+  match (posAttrs t)[i]? with
+  | none => false
+  | some a =>
+    match nameToPos (posAttrs t') a.name with
+    | none => false
+    | some j => (eqPositions t').contains j && ((den (posAttrs t) vs)[i]? == (den (posAttrs t') vs')[j]?)
+
+theorem crossCmp_eq {t t' : OType} {vs vs' : List Val} {k k' : Nat}
+    (ht : TailOpt (posAttrs t) k) (ht' : TailOpt (posAttrs t') k') (hk : k ≤ vs.length) (hk' : k' ≤ vs'.length)
+    {i : Nat} (hlt : i < (posAttrs t).length) :
+    crossCmp (posAttrs t) (posAttrs t') (eqPositions t') vs vs' i = .ok (crossStep t t' vs vs' i) := by
+  have ha : (posAttrs t)[i]? = some (posAttrs t)[i] := List.getElem?_eq_getElem hlt
+  unfold crossCmp crossStep
+  simp only [ha]
+  cases hj : nameToPos (posAttrs t') (posAttrs t)[i].name with
+  | none => rfl
+  | some j =>
+    simp only
+    by_cases hc : (eqPositions t').contains j = true
+    · obtain ⟨v, hv, hd⟩ := valueAt_den (vs := vs) ht hk hlt
+      obtain ⟨v', hv', hd'⟩ := valueAt_den (vs := vs') ht' hk' (nameToPos_lt hj)
+      simp only [hc, if_true, hv, hv', hd, hd', cmpValues_ok, Bool.true_and]
+      simp
+    · simp only [hc, Bool.false_eq_true, if_false, Bool.false_and]
+
+theorem equals_cross {t t' : OType} {vs vs' : List Val} {k k' : Nat} (hne : tyEq t t' = false)
+    (ht : TailOpt (posAttrs t) k) (ht' : TailOpt (posAttrs t') k') (hk : k ≤ vs.length) (hk' : k' ≤ vs'.length) :
+    equals { typ := t, values := vs } { typ := t', values := vs' } =
+      .ok (!(includesType t || includesType t') && (eqPositions t).length == (eqPositions t').length &&
+        (eqPositions t).all (crossStep t t' vs vs')) := by
+  unfold equals
+  simp only [hne, Bool.false_eq_true, if_false]
+  by_cases hi : (includesType t || includesType t') = true
+  · simp [hi]
+  · simp only [hi, Bool.false_eq_true, if_false]
+    by_cases hl : (eqPositions t).length = (eqPositions t').length
+    · simp only [hl, bne_self_eq_false, Bool.false_eq_true, if_false]
+      rw [allOk_eq (g := crossStep t t' vs vs') (fun i hmem => crossCmp_eq ht ht' hk hk' (eqPositions_lt hmem))]
+      simp
+    · simp [hl]
 
 /-! ### trim -/
 
@@ -509,10 +548,34 @@ structure WF (t : OType) : Prop where
   tailOpt : TailOpt (posAttrs t) (requiredCount t)
   god : GodUndef (posAttrs t)
 
-/-- names of the attributes `Equals` compares: the declared equality attributes that have a position, or every positional
-    attribute when no equality is declared anywhere in the chain -/
+/-! ### dedup -/
+
+theorem mem_dedup {l : List String} {n : String} : n ∈ dedup l ↔ n ∈ l := by
+  induction l with
+  | nil => simp [dedup]
+  | cons x xs ih =>
+    simp only [dedup, List.mem_cons, List.mem_filter, ih]
+    constructor
+    · rintro (h | ⟨h, _⟩)
+      · exact Or.inl h
+      · exact Or.inr h
+    · rintro (h | h)
+      · exact Or.inl h
+      · by_cases hx : n = x
+        · exact Or.inl hx
+        · exact Or.inr ⟨h, by simpa using hx⟩
+
+theorem dedup_nodup (l : List String) : (dedup l).Nodup := by
+  induction l with
+  | nil => simp [dedup]
+  | cons x xs ih =>
+    simp only [dedup, List.nodup_cons, List.mem_filter]
+    exact ⟨by simp, ih.filter _⟩
+
+/-- names of the attributes `Equals` compares: the declared equality attributes (each once) that have a position, or every
+    positional attribute when no equality is declared anywhere in the chain -/
 def eqAttrNames (t : OType) : List String :=
-  if equalityDeclared t then (equalityAttributes t).filter (fun n => (nameToPos (posAttrs t) n).isSome)
+  if equalityDeclared t then (dedup (equalityAttributes t)).filter (fun n => (nameToPos (posAttrs t) n).isSome)
   else (posAttrs t).map (·.name)
 
 theorem mem_eqPositions {t : OType} (hnd : ((posAttrs t).map (·.name)).Nodup) {i : Nat} :
@@ -529,5 +592,39 @@ theorem mem_eqPositions {t : OType} (hnd : ((posAttrs t).map (·.name)).Nodup) {
       have ha : (posAttrs t)[i]? = some (posAttrs t)[i] := List.getElem?_eq_getElem hi
       exact ⟨(posAttrs t)[i].name, ⟨_, List.mem_of_getElem? ha, rfl⟩, nameToPos_of_nodup hnd ha⟩
     · rintro ⟨n, _, hi⟩; exact nameToPos_lt hi
+
+theorem eqAttrNames_pos {t : OType} (hnd : ((posAttrs t).map (·.name)).Nodup) {n : String} (h : n ∈ eqAttrNames t) :
+    ∃ i, nameToPos (posAttrs t) n = some i := by
+  unfold eqAttrNames at h
+  by_cases hd : equalityDeclared t = true
+  · simp only [hd, if_true, List.mem_filter] at h
+    exact Option.isSome_iff_exists.mp h.2
+  · simp only [hd, Bool.false_eq_true, if_false, List.mem_map] at h
+    obtain ⟨a, ha, rfl⟩ := h
+    obtain ⟨i, hi⟩ := List.getElem?_of_mem ha
+    exact ⟨i, nameToPos_of_nodup hnd hi⟩
+
+theorem length_filterMap_eq_filter {α β} (f : α → Option β) (l : List α) :
+    (l.filterMap f).length = (l.filter (fun x => (f x).isSome)).length := by
+  induction l with
+  | nil => rfl
+  | cons x xs ih =>
+    cases hx : f x with
+    | none => simp [List.filterMap_cons, hx, ih]
+    | some y => simp [List.filterMap_cons, hx, ih]
+
+theorem eqPositions_length (t : OType) : (eqPositions t).length = (eqAttrNames t).length := by
+  unfold eqPositions eqAttrNames attrInfo
+  by_cases hd : equalityDeclared t = true
+  · simp only [hd, if_true]
+    exact length_filterMap_eq_filter _ _
+  · simp [hd]
+
+/-- the names `Equals` compares are pairwise different -/
+theorem eqAttrNames_nodup {t : OType} (hnd : ((posAttrs t).map (·.name)).Nodup) : (eqAttrNames t).Nodup := by
+  unfold eqAttrNames
+  by_cases hd : equalityDeclared t = true
+  · simp only [hd, if_true]; exact (dedup_nodup _).filter _
+  · simp only [hd, Bool.false_eq_true, if_false]; exact hnd
 
 end Pcore.Object
